@@ -116,6 +116,141 @@ fn compile(req: &Value) -> Value {
     }
 }
 
+/// The items of a Rust source file as (kind, name, token string).
+fn items_of(path: &std::path::Path) -> Result<Vec<Value>, String> {
+    use quote::ToTokens;
+    let text = std::fs::read_to_string(path).map_err(|e| format!("read: {e}"))?;
+    let file = syn::parse_file(&text).map_err(|e| format!("syn: {e}"))?;
+    Ok(file
+        .items
+        .iter()
+        .map(|it| {
+            let (kind, name) = match it {
+                syn::Item::Enum(e) => ("type", e.ident.to_string()),
+                syn::Item::Struct(e) => ("type", e.ident.to_string()),
+                syn::Item::Type(e) => ("type", e.ident.to_string()),
+                syn::Item::Fn(f) => ("fn", f.sig.ident.to_string()),
+                syn::Item::Use(_) => ("use", String::new()),
+                _ => ("other", String::new()),
+            };
+            // the compiler re-prints the file with prettyplease, which normalises
+            // trailing commas; they are formatting, not content
+            let mut toks = it.to_token_stream().to_string();
+            for close in ["}", ")", "]", ">"] {
+                toks = toks.replace(&format!(", {close}"), &format!(" {close}"));
+                toks = toks.replace(&format!(",{close}"), close);
+            }
+            while toks.contains("  ") {
+                toks = toks.replace("  ", " ");
+            }
+            json!([kind, name, toks])
+        })
+        .collect())
+}
+
+fn rewrite(path: &std::path::Path, f: impl FnOnce(&mut syn::File)) -> Result<(), String> {
+    use quote::ToTokens;
+    let text = std::fs::read_to_string(path).map_err(|e| format!("read: {e}"))?;
+    let mut file = syn::parse_file(&text).map_err(|e| format!("syn: {e}"))?;
+    f(&mut file);
+    // plain token string: valid Rust, formatting irrelevant (the compiler re-prints the file)
+    let mut out = String::new();
+    for a in &file.attrs {
+        out.push_str(&a.to_token_stream().to_string());
+        out.push('\n');
+    }
+    for it in &file.items {
+        out.push_str(&it.to_token_stream().to_string());
+        out.push('\n');
+    }
+    std::fs::write(path, out).map_err(|e| format!("write: {e}"))
+}
+
+fn item_key(it: &syn::Item) -> (String, String) {
+    match it {
+        syn::Item::Enum(e) => ("type".into(), e.ident.to_string()),
+        syn::Item::Struct(e) => ("type".into(), e.ident.to_string()),
+        syn::Item::Type(e) => ("type".into(), e.ident.to_string()),
+        syn::Item::Fn(f) => ("fn".into(), f.sig.ident.to_string()),
+        _ => ("other".into(), String::new()),
+    }
+}
+
+/// A history of operations on one actions file (C18): generate / delete / edit / add.
+fn history(req: &Value) -> Value {
+    let dir = PathBuf::from(req["dir"].as_str().unwrap());
+    std::fs::create_dir_all(&dir).unwrap();
+    let gp = dir.join("g.rustemo");
+    std::fs::write(&gp, req["grammar"].as_str().unwrap()).unwrap();
+    let actions = dir.join("g_actions.rs");
+    let mut out = vec![];
+    for step in req["steps"].as_array().unwrap() {
+        let op = step["op"].as_str().unwrap();
+        let mut outcome = json!("ok");
+        match op {
+            "generate" => {
+                let mut sv = req["settings"].clone();
+                sv["actions_in_source_tree"] = json!(true);
+                if let Some(f) = step.get("force") {
+                    sv["force"] = f.clone();
+                }
+                let r = compile(&json!({"grammar_path": gp.to_str().unwrap(), "settings": sv,
+                                        "out_dir": dir.join("out").to_str().unwrap()}));
+                outcome = r;
+            }
+            "delete" => {
+                let names: Vec<(String, String)> = step["names"]
+                    .as_array()
+                    .unwrap()
+                    .iter()
+                    .map(|p| (p[0].as_str().unwrap().to_string(), p[1].as_str().unwrap().to_string()))
+                    .collect();
+                if let Err(e) = rewrite(&actions, |f| f.items.retain(|it| !names.contains(&item_key(it)))) {
+                    outcome = json!(e);
+                }
+            }
+            "edit" => {
+                let name = step["name"].as_str().unwrap().to_string();
+                if let Err(e) = rewrite(&actions, |f| {
+                    for it in f.items.iter_mut() {
+                        if let syn::Item::Fn(func) = it {
+                            if func.sig.ident == name {
+                                func.block = Box::new(syn::parse_quote!({ todo!("edited by the user") }));
+                            }
+                        }
+                    }
+                }) {
+                    outcome = json!(e);
+                }
+            }
+            "add" => {
+                let name = step["name"].as_str().unwrap().to_string();
+                let at = step["at"].as_u64().unwrap_or(0) as usize;
+                let kind = step["kind"].as_str().unwrap().to_string();
+                if let Err(e) = rewrite(&actions, |f| {
+                    let id = quote::format_ident!("{}", name);
+                    let item: syn::Item = if kind == "fn" {
+                        syn::parse_quote!(pub fn #id() -> usize { 42 })
+                    } else {
+                        syn::parse_quote!(pub struct #id { pub x: usize })
+                    };
+                    let at = at.min(f.items.len());
+                    f.items.insert(at, item);
+                }) {
+                    outcome = json!(e);
+                }
+            }
+            _ => {}
+        }
+        let items = match items_of(&actions) {
+            Ok(i) => json!(i),
+            Err(e) => json!([["error", e, ""]]),
+        };
+        out.push(json!({"op": op, "outcome": outcome, "items": items}));
+    }
+    json!({"id": req["id"], "steps": out})
+}
+
 fn main() {
     let args: Vec<String> = std::env::args().collect();
     std::panic::set_hook(Box::new(|_| {}));
@@ -149,6 +284,21 @@ fn main() {
                     };
                 }
                 writeln!(out, "{}", res).unwrap();
+            }
+        }
+        Some("history") => {
+            let cases = std::fs::read_to_string(&args[2]).unwrap();
+            let mut out = std::fs::File::create(&args[3]).unwrap();
+            for line in cases.lines() {
+                if line.trim().is_empty() {
+                    continue;
+                }
+                let req: Value = serde_json::from_str(line).unwrap();
+                let r = catch(move || history(&req));
+                match r {
+                    Ok(v) => writeln!(out, "{}", v).unwrap(),
+                    Err(p) => writeln!(out, "{}", json!({"id": "?", "panic": p, "steps": []})).unwrap(),
+                }
             }
         }
         _ => {
